@@ -151,6 +151,8 @@ struct Case {
     /// (what Excel 2013+ writes), 2 = `x14:definedNames/x14:definedName name=…` with argument descriptions (Excel 2010+),
     /// 4 = a future-extension `x15:sheets/x15:sheet` list
     ext: u8,
+    /// xlsx: part of every defined-name text is written as a CDATA section
+    cdata: bool,
     sheets: Vec<LSheet>,
     names: Vec<LName>,
 }
@@ -184,7 +186,7 @@ impl Case {
             .collect();
         let pre: Vec<String> = self.pre.iter().map(|(i, p)| format!("{}:{}", i, hex(p))).collect();
         format!(
-            "{};{};{};{};{};P={};S={};N={};Q={};X={}",
+            "{};{};{};{};{};P={};S={};N={};Q={};X={};C={}",
             self.fmt.tag(),
             self.seed,
             self.date1904 as u8,
@@ -194,12 +196,13 @@ impl Case {
             sh.join(","),
             nm.join(","),
             self.quirk,
-            self.ext
+            self.ext,
+            self.cdata as u8
         )
     }
     fn parse(s: &str) -> Case {
         let p: Vec<&str> = s.split(';').collect();
-        assert!((8..=10).contains(&p.len()), "bad case {s}");
+        assert!((8..=11).contains(&p.len()), "bad case {s}");
         let utf = |h: &str| String::from_utf8(unhex(h)).expect("utf8");
         let list = |x: &str, pre: &str| -> Vec<String> {
             let b = x.strip_prefix(pre).expect("prefix");
@@ -247,6 +250,7 @@ impl Case {
             pre,
             quirk: if p.len() >= 9 { p[8].strip_prefix("Q=").expect("Q=").parse().unwrap() } else { 0 },
             ext: if p.len() >= 10 { p[9].strip_prefix("X=").expect("X=").parse().unwrap() } else { 0 },
+            cdata: p.len() >= 11 && p[10] == "C=1",
             sheets,
             names,
         }
@@ -482,6 +486,7 @@ fn gen_case(fmt: Fmt, rng: &mut Rng) -> Case {
             _ => 0,
         },
         ext: if fmt == Fmt::Xlsx && rng.chance(1, 2) { *rng.pick(&[1u8, 1, 1, 2, 3, 4, 5, 7]) } else { 0 },
+        cdata: fmt == Fmt::Xlsx && rng.chance(1, 3),
         sheets,
         names,
     }
@@ -742,6 +747,7 @@ fn build_xlsx(c: &Case) -> Built {
         }
     }
     book.split_defined_names = !c.plain && rng.chance(1, 3);
+    book.cdata_defined_names = c.cdata;
     if c.ext != 0 {
         let kv = |k: &str, v: &str| (k.to_string(), v.to_string());
         let q = |n: &str| if c.prefix.is_empty() { n.to_string() } else { format!("{}:{}", c.prefix, n) };
@@ -1114,6 +1120,9 @@ fn features(c: &Case, part: &str) -> String {
     if c.ext != 0 {
         f.push(format!("extLst={}", c.ext));
     }
+    if c.cdata && part == "N" {
+        f.push("cdata".to_string());
+    }
     if f.is_empty() {
         String::new()
     } else {
@@ -1241,6 +1250,11 @@ fn shrink(c: &Case, kind: &str, sig: &str, drv: &mut Driver) -> Case {
         for i in 0..cur.pre.len() {
             let mut d = cur.clone();
             d.pre.remove(i);
+            cands.push(d);
+        }
+        if cur.cdata {
+            let mut d = cur.clone();
+            d.cdata = false;
             cands.push(d);
         }
         for bit in [1u8, 2, 4] {
@@ -1453,7 +1467,7 @@ fn unit_boundsheet(_drv: &mut Driver, rep: &mut Report, _rng: &mut Rng, _n: u64)
 
 fn corpus() -> Vec<Case> {
     let sh = |n: &str, vis: u8, kind: Kind| LSheet { name: n.to_string(), vis, kind };
-    let base = |fmt: Fmt| Case { fmt, seed: 1, date1904: false, prefix: String::new(), plain: true, pre: vec![], quirk: 0, ext: 0, sheets: vec![sh("S1", 0, Kind::Work)], names: vec![] };
+    let base = |fmt: Fmt| Case { fmt, seed: 1, date1904: false, prefix: String::new(), plain: true, pre: vec![], quirk: 0, ext: 0, cdata: false, sheets: vec![sh("S1", 0, Kind::Work)], names: vec![] };
     let mut v = vec![];
     // D22: <x:workbookPr date1904="1"/> was ignored
     let mut c = base(Fmt::Xlsx);
@@ -1476,6 +1490,11 @@ fn corpus() -> Vec<Case> {
         c.date1904 = d;
         v.push(c);
     }
+    // C16-d (incomplete CDATA fix 31ef0e8): CDATA sections in the text of a <definedName> were dropped
+    let mut c = base(Fmt::Xlsx);
+    c.cdata = true;
+    c.names = vec![LName { name: "N1".into(), target: Target::Text("Sheet1!$A$1".into()) }, LName { name: "N2".into(), target: Target::Text("x".into()) }];
+    v.push(c);
     // D35: a 16-bit Lbl name of two characters was read as one
     let mut c = base(Fmt::Xls);
     c.names = vec![LName { name: "Жы".into(), target: Target::Ref(0, 0, 0) }];
